@@ -188,8 +188,10 @@ def main(argv=None):
                 lines.append("UNDECIDED property=%s obligation=%s result=candidate-counterexample-not-reproduced" % (pid, ob.name))
                 status = max(status, 2)
 
+    kf_pending = {f["id"]: f for f in findings}
     for fid, f in known_hit.items():
         lines.append("KNOWN-FINDING: property=%s %s" % (pid, f["what"]))
+        kf_pending.pop(fid, None)
 
     replay_paths = []
     if violations:
@@ -221,6 +223,12 @@ def main(argv=None):
         else:
             traces = res.get("runs", 0)
             bounded = res.get("bounded", [])
+            # listed findings whose witness still fails natively are reported (and only those)
+            for fid in res.get("known_findings_reproduced", []):
+                f = kf_pending.pop(fid, None)
+                if f is not None:
+                    lines.append("KNOWN-FINDING: property=%s %s" % (pid, f["what"]))
+                    known_hit[fid] = f
             if res.get("failing_input") is not None:
                 os.makedirs(os.path.join(VERIF, "out", "replay"), exist_ok=True)
                 rp = os.path.join(VERIF, "out", "replay", "%s_native.json" % pid)
@@ -284,7 +292,7 @@ def main(argv=None):
 def run_harness(harness, pid, mode, seed, timeout):
     """native harness under /venv/bin/python against the tree under verification; returns its JSON report"""
     repo = os.environ.get("PYVC_REPO", "/repo")
-    env = dict(os.environ, PYTHONPATH=repo + os.pathsep + VERIF, VERIF_SEED=str(seed))
+    env = dict(os.environ, PYTHONPATH=repo + os.pathsep + VERIF, VERIF_SEED=str(seed), VERIF_PROP=pid)
     py = "/venv/bin/python" if os.path.exists("/venv/bin/python") else sys.executable
     try:
         p = subprocess.run([py, os.path.join(VERIF, harness), mode], capture_output=True, text=True, timeout=timeout, env=env, cwd=VERIF)
